@@ -486,6 +486,34 @@ UNITS += [
          doc="T: at most one create_thread, on the given scheduler, with the hint as given; none on a refused initial state"),
 ]
 
+# ---------------------------------------------------------------------------------------------------------------
+# unit group 5 (found while reading for C05): shared_priority_queue_scheduler::create_thread with a worker hint
+
+SPQ = "libs/pika/schedulers/include/pika/schedulers/shared_priority_queue_scheduler.hpp"
+SPQ_RULES = [
+    ACTIVITY, Sub(r"\bthis\b(?!->)", "self", None), SIZE_T_CAST, HINT_MODE_ENUM, Sub(r"(?:pika::)?error::(\w+)", r"1 /* error::\1 */", None),
+    DropStmt(r"\bPIKA_DETAIL_DP", None),
+    Sub(r"\busing\s+[^;]*;", "", None),
+    Sub(r"\bspq_deb<\d+>\.is_enabled\(\)", "0", None),
+    Sub(r"\bdata\.", "data->", None),
+    Sub(r"std::unique_lock<pu_mutex_type>\s+(\w+)\s*;", r"int \1 = 0;", None),
+    Sub(r"\blocal_thread_number\(\)", "local_thread_number(self)", None),
+    Sub(r"numa_holder_\[[^\]]+\]\s*\.thread_queue\((?:[^()]|\([^()]*\))*\)\s*->worker_next\(", "worker_next(self, ", None),
+    Call(r"\bselect_active_pu", lambda a, env: "select_active_pu(self, %s, %s)" % (a[1], a[2] if len(a) > 2 else "false"), None),
+    Sub(r"\b(?:d_lookup_|q_lookup_)\[([^\]]+)\]", r"w_lookup(self, \1)", None),
+    Sub(r"\b(?:q_offset_|q_counts_)\[([^\]]+)\]", r"dom_lookup(self, \1)", None),
+    Call(r"\bPIKA_THROW_EXCEPTION", "{ vx_throw_pika({0}); return; }", None, stmt=True),
+    Sub(r"numa_holder_\[[^\]]+\]\s*\.thread_queue\((?:[^()]|\([^()]*\))*\)\s*->create_thread\(", "np_create_thread(self, 0, ", None),
+    Members(["num_workers_", "num_domains_", "round_robin_"], optional=["num_workers_", "num_domains_", "round_robin_"]),
+]
+UNITS += [
+    Unit("spq.create_thread.hint", "spq.c", defines=MODE_DEFS, enforce="create_thread",
+         lifts={"body": Lift(SPQ, r"void create_thread\(threads::detail::thread_init_data& data,", rules=SPQ_RULES)},
+         funcs=[SPQ + ": shared_priority_queue_scheduler::create_thread"], min_obligations=10,
+         doc="F/T: with hint mode `thread` and ANY std::int16_t hint the per-worker tables d_lookup_/q_lookup_ are indexed in "
+             "bounds and exactly one queue receives the task.  FAILS on the pinned tree: the hint is used unreduced"),
+]
+
 META = {
     "explanation": (
         "C10 is decided as a SLICE: the per-call placement steps. (1) thread_pool_scheduler: execute / operation_state::start "
@@ -519,6 +547,10 @@ META = {
         "with indices of OTHER existing workers (not verified here; the code's own PIKA_ASSERT(idx != num_thread) relies on it)",
         "specs/C10/queues.c hp_put / np_put / lp_put / tq_poll: T-stubs for thread_queue::create_thread / schedule_thread / "
         "get_next_thread (the queue's own behaviour is C01/C17)",
+        "specs/C10/spq.c: select_active_pu returns its argument unchanged without elasticity (what the real function does for any "
+        "argument; with elasticity VX_ASSUME(r < num_workers_) = C19 postcondition); d_lookup_/q_lookup_ are std::vectors of size "
+        "hardware_concurrency() >= num_workers_ (constructor), modelled by the bound lookup_size; only hint mode `thread` is "
+        "covered by this unit (precondition)",
         "specs/C10/mode.c: a virtual call set_scheduler_mode(m) on a static scheduler object is bound to the static override "
         "(C++ dynamic dispatch, including inside the most-derived constructor body); mode_ store/load are single atomic steps; "
         "concurrent setters are not modelled (each setter's final store already has the bits clear)",
